@@ -23,3 +23,13 @@ package queue
 //@ props C12 C10
 //@ requires elem != nil
 //@ ensures [C12] result == (elem.Expiry != 0 && now > elem.Expiry)
+
+// Read hands out elements of the store: non-nil, each a *Publish carrying a message; every element was
+// stamped (At) no later than the clock reading at which Read returns.
+//@ func (Store).Read
+//@ params q, pids
+//@ modifies heap
+//@ ensures result1 != nil ==> result0 == nil
+//@ ensures len(result0) <= len(pids)
+//@ ensures forall i int :: 0 <= i && i < len(result0) ==> result0[i] != nil && result0[i].MessageWithID.(type *Publish) && result0[i].MessageWithID.(*Publish) != nil && result0[i].MessageWithID.(*Publish).Message != nil
+//@ ensures forall i int :: 0 <= i && i < len(result0) ==> result0[i].At <= now()
